@@ -28,7 +28,11 @@ def _dyadic_dt():
 
 @st.composite
 def _cases(draw):
-    spec = draw(gen.record_specs(min_n=2, max_n=5000, allow_int=True))
+    if draw(st.integers(0, 39)) == 0:
+        # very long records (tens of minutes at 100-200 Hz)
+        spec = draw(gen.record_specs(min_n=60000, max_n=150000, kinds=["noise", "quake", "walk", "sines"], allow_zero_runs=False))
+    else:
+        spec = draw(gen.record_specs(min_n=2, max_n=5000, allow_int=True))
     exact = spec["k"] == "dyadic" and draw(st.booleans())
     dt = draw(_dyadic_dt()) if exact else draw(gen.dts(1e-4, 2.0))
     return {"rec": spec, "dt": dt, "trap": draw(st.booleans()), "exact": exact}
